@@ -24,6 +24,7 @@ class LinkSpec:
         self.tx_filter = None         # f(spec, n_tx, header, data) -> deliver to device?
         self.fail_after_tx = None     # link error when the k-th packet is sent (1-based)
         self.fail_after_rx = None     # link error after the k-th packet was handed to the library
+        self.fail_on_tx = None        # f(header, data) -> True: link error when such a packet is sent
         self.fail_reporter = 'driver'  # 'driver' (driver-owned thread) | 'sender' (inside send_packet)
         self.fail_msg = 'simulated link failure'
         self.connect_error = None     # exception instance raised by connect()
@@ -173,6 +174,9 @@ class SimLinkDriver(CRTPDriver):
                     heapq.heappush(self._inflight, (self._now() + spec.latency + extra, self._ctr, h2, bytes(d2)))
             self._wake.set()
         if spec.fail_after_tx is not None and n == spec.fail_after_tx:
+            self._fault()
+        elif spec.fail_on_tx is not None and spec.fail_on_tx(header, data):
+            spec.fail_on_tx = None
             self._fault()
         return True
 
